@@ -1,7 +1,7 @@
 (** C01 — Wire frames: canonical 48-byte layout, lossless round trip, one encoding.
     This file contains only statements (closed by [exact]), their pins and
     their assumptions. *)
-From RepeV Require Import Model.C01 Proofs.HeaderProofs Proofs.MessageProofs Proofs.C01Proofs.
+From RepeV Require Import Model.C01 Gen.Tables Proofs.HeaderProofs Proofs.TablesC01 Proofs.MessageProofs Proofs.C01Proofs.
 
 (** exactly 48 header bytes *)
 Theorem C01_header_48 : forall h, length (encode h) = 48%nat.
@@ -70,6 +70,18 @@ Theorem C01_build_consistent : forall b,
   msg_ok (build b) = true.
 Proof. exact build_ok. Qed.
 
+(** the model's field order, widths and constants are the ones re-read from the
+    Rust source on this run (each conjunct degrades to True if the source could
+    not be parsed; the evidence then says so) *)
+Theorem C01_source_tables :
+  agrees src_header_encode header_table /\ agrees src_header_decode header_table /\
+  agrees src_HEADER_SIZE HEADER_SIZE /\ agrees src_REPE_SPEC REPE_SPEC /\
+  (forall h, encode h = encode_tbl header_table h).
+Proof.
+  exact (conj header_encode_agrees (conj header_decode_agrees (conj header_size_agrees
+          (conj repe_spec_agrees encode_is_table)))).
+Qed.
+
 (** the executable oracle (also applied to the implementation's observations)
     accepts the model on every well-formed case *)
 Theorem C01_holds : forall c, c01_wf c = true -> ok_C01 c (model_C01 c) = true.
@@ -104,6 +116,10 @@ Check C01_routes_servers : forall resp req_q, lens_ok resp ->
 Check C01_build_consistent : forall b, bytes_ok (b_query b) = true -> bytes_ok (b_body b) = true ->
   b_id b < two64 -> b_qfmt b < two16 -> b_bfmt b < two16 -> b_ec b < two32 ->
   HEADER_SIZE + lenN (b_query b) + lenN (b_body b) < two64 -> msg_ok (build b) = true.
+Check C01_source_tables :
+  agrees src_header_encode header_table /\ agrees src_header_decode header_table /\
+  agrees src_HEADER_SIZE HEADER_SIZE /\ agrees src_REPE_SPEC REPE_SPEC /\
+  (forall h, encode h = encode_tbl header_table h).
 Check C01_holds : forall c, c01_wf c = true -> ok_C01 c (model_C01 c) = true.
 
 Print Assumptions C01_header_48.
@@ -118,4 +134,5 @@ Print Assumptions C01_routes_in_place.
 Print Assumptions C01_routes_streaming.
 Print Assumptions C01_routes_servers.
 Print Assumptions C01_build_consistent.
+Print Assumptions C01_source_tables.
 Print Assumptions C01_holds.
